@@ -7,6 +7,7 @@ package c03
 //   - Text.Space is ignored when Text.Content is empty (the writer omits an empty w:t)
 //   - a nil pointer to a pure container (pPr, rPr, tcPr, trPr, tblPr) equals a pointer to an empty one
 //   - SectionProperties.XmlnsR (a repeated namespace declaration) is ignored
+//   - TableStyle.Name (display name of a custom table style, written to the styles part only) is ignored
 // Nothing else: a lost pointer, attribute string or character is a difference.
 
 import (
@@ -139,6 +140,11 @@ func (d *differ) walk(a, b reflect.Value, path string) {
 				continue
 			}
 			if t.Name() == "SectionProperties" && f.Name == "XmlnsR" {
+				continue
+			}
+			if t.Name() == "TableStyle" && f.Name == "Name" {
+				// the display name CreateCustomTableStyle gives: it is carried to the styles part on save (tag xml:"-"),
+				// it is not part of the body (what becomes of the style definition is C13/C14's question)
 				continue
 			}
 			d.walk(a.Field(i), b.Field(i), path+"."+f.Name)
